@@ -289,12 +289,15 @@ type fullReader struct {
 	io.Reader
 }
 
+// Read fills 'p' completely unless the underlying reader ends or fails first. The underlying reader's own error is
+// returned unchanged: io.EOF is the end of the entry, io.ErrUnexpectedEOF is a truncated archive and must stay an error.
 func (f fullReader) Read(p []byte) (n int, err error) {
-	n, err = io.ReadFull(f.Reader, p)
-	if err == io.ErrUnexpectedEOF {
-		err = io.EOF
+	for n < len(p) && err == nil {
+		var nn int
+		nn, err = f.Reader.Read(p[n:])
+		n += nn
 	}
-	return
+	return n, err
 }
 
 // Open implements hackpadfs.FS
